@@ -51,6 +51,11 @@ func VerifC04UploadDownload() {
 	}
 	add(".datamon/x", []byte("meta"), false)
 	add("d/.datamon", []byte("user"), true)
+	if _, ok := src.data["d/.datamon"]; ok {
+		// a top-level name that merely starts like the reserved directory is an ordinary file
+		src.putRaw(".datamonignore", []byte("ign"))
+		want[".datamonignore"] = []byte("ign")
+	}
 	E := uint(vChoose("entriesPerFile", 3) + 1)
 	up := NewBundle(Repo("r"), ContextStores(stores), ConsumableStore(src), Logger(zap.NewNop()),
 		BundleDescriptor(model.NewBundleDescriptor(model.Message("m"), model.BundleContributor(model.Contributor{Name: "n", Email: "e@x.io"}))),
